@@ -97,8 +97,8 @@ type Result struct {
 	// with a static call of f
 	RefFuncs      map[string]bool
 	StaticCallers map[string]map[string]bool
-	start       time.Time
-	keyCount    map[string]int
+	start         time.Time
+	keyCount      map[string]int
 }
 
 func New(prop, tier string, seed int) *Result {
